@@ -356,6 +356,71 @@ def _directed(ctx, rep):
                                             f"changed: {len(pre['rows'])}→{len(v['rows'])} rows, {len(pre['snaps'])}→{len(v['snaps'])} snapshots", case)
                     finally:
                         env.close()
+        # ---- (a') a transaction that queued PRE-BUILT files (file-level API) and then fails / is interrupted / is rolled back: a file that a
+        # retained snapshot references (re-added after a delete) must still be there afterwards — the rollback may remove only what the
+        # transaction itself wrote
+        from datashard.data_structures import DataFile, FileFormat
+        for how in ("missing-second-file", "interrupt-in-body", "explicit-rollback", "manifest-write-fails"):
+            p_ = os.path.join(base, f"pre-{how}")
+            t = tablekit.create(p_)
+            t.append_records(tablekit.rows(2, start=0, tag="a"))
+            t.append_records(tablekit.rows(2, start=10, tag="b"))
+            old = tablekit.data_paths(t)[0]
+            with t.new_transaction() as tx:
+                tx.delete_files(["/" + old])
+                tx.commit()
+            pre = reader.view(p_)
+            need = reader.reachable(p_)
+            df = DataFile(file_path="/" + old, file_format=FileFormat.PARQUET, partition_values={}, record_count=2,
+                          file_size_in_bytes=os.path.getsize(os.path.join(p_, old)))
+            raised = None
+            undo = None
+            try:
+                if how == "explicit-rollback":
+                    tx = t.new_transaction().begin()
+                    tx.append_files([df])
+                    tx.rollback()
+                else:
+                    if how == "manifest-write-fails":
+                        st_ = t.storage
+                        ow_ = st_.write_file
+
+                        def wf(pp, *a_, _o=ow_, **k_):
+                            if "manifests/" in str(pp):
+                                raise OSError(28, "injected: no space left")
+                            return _o(pp, *a_, **k_)
+                        st_.write_file = wf
+                        undo = lambda st_=st_: delattr(st_, "write_file")
+                    with t.new_transaction() as tx:
+                        tx.append_files([df])
+                        if how == "missing-second-file":
+                            tx.append_files([DataFile(file_path="/data/never-written.parquet", file_format=FileFormat.PARQUET, partition_values={},
+                                                      record_count=1, file_size_in_bytes=1)])
+                        if how == "interrupt-in-body":
+                            raise KeyboardInterrupt("delivered inside the with-body")
+                        tx.commit()
+            except BaseException as e:      # noqa: BLE001
+                raised = type(e).__name__
+            finally:
+                if undo:
+                    try:
+                        undo()
+                    except Exception:       # noqa: BLE001
+                        pass
+            rep.evaluations += 1
+            rep.nontrivial(["c04-prebuilt", how])
+            case = {"kind": "failed-transaction-with-prebuilt-file", "how": how, "file": old, "raised": raised}
+            missing = sorted(f_ for f_ in need if not os.path.exists(os.path.join(p_, f_)))
+            if missing:
+                rep.violate("C04:file-of-a-retained-snapshot-deleted-by-rollback", f"{how}: the failed / abandoned transaction had queued {old} (referenced by an "
+                            f"older retained snapshot) through append_files; afterwards {missing[:2]} no longer exist ({raised})", case)
+            else:
+                try:
+                    v = reader.view(p_)
+                    if how != "explicit-rollback" and raised is not None and (v["rows"], len(v["snaps"])) != (pre["rows"], len(pre["snaps"])):
+                        rep.violate("C04:raise-left-neither-pre-nor-post-state", f"{how}: raised {raised}, table changed", case)
+                except reader.Broken as e:
+                    rep.violate("C04:a-retained-snapshot-is-unreadable", f"{how}: {e}", case)
         # ---- (b)
         for backend in ("s3cas", "s3nocas"):
             for second_fault in ("manifest", "mlist", "meta"):
